@@ -214,13 +214,27 @@ def wl_roomy_exact(ctx, rng, case):
     true = Counter({k: 0 for k in keys})
     for step in range(rng.randint(5, 30)):
         k = rng.choice(keys)
+        if rng.random() < 0.15:
+            # a small DELTA sketch (same shape and strategy, a handful of counters in use, total mostly below the width) is merged in: what
+            # it counted is part of this sketch's contents from then on.  Amounts with zero low bytes (256, 512, 65536) and their neighbours.
+            delta = P.CountMinSketch(width=s.width, depth=s.depth, **bl.kw_hash(hf))
+            fed = [(rng.choice(keys), rng.choice([256, 256, 512, 768, 255, 257, 1, 3, 65536, 2**24])) for _ in range(rng.randint(1, 3))]
+            for kd, nd in fed:
+                delta.add(kd, nd)
+            case.op("join-delta", fed)
+            s.join(delta)
+            for kd, nd in fed:
+                true[kd] += nd
+            ctx.count("delta_sketches_joined_into_a_roomy_sketch")
+            probe_all(ctx, s, keys, true, f"after step {step} (join of a small delta sketch)")
+            continue
         if true[k] and rng.random() < 0.4:
             n = rng.randint(1, true[k])
             case.op("remove", k, n)
             ret = s.remove(k, n)
             true[k] -= n
         else:
-            n = rng.randint(1, 9)
+            n = rng.randint(1, 9) if rng.random() < 0.8 else rng.choice([256, 512, 65536, 255, 1024])
             case.op("add", k, n)
             ret = s.add(k, n)
             true[k] += n
